@@ -329,6 +329,20 @@ func c08Scenarios(disk bool) []*schedScenario {
 		{Name: name("a5-update-run-vs-publish-and-second-run"), Setup: setupOld, Ops: []schedOp{refresh, publishTick}, Post: bgPost},
 		{Name: name("a4-background-first-fetch-vs-publish-and-tick"), Setup: bgSetup, Ops: []schedOp{reader(1, 2), publishTick}, Post: bgPost},
 		{Name: name("a1-refresh-vs-2readers"), Setup: setup, Ops: []schedOp{refresh, reader(1, 1, 2, 0), reader(2, 2, 1, 4)}},
+		// the same with crl_cdp_strict off (a strict lookup first waits for the entry, a lenient one goes straight to the store)
+		{Name: name("a6-refresh-vs-2readers-lenient"), Setup: func(x *schedCtx) {
+			lenient := base
+			lenient.Strict = false
+			w := NewCW(lenient)
+			x.W = append(x.W, w)
+			if err := w.Provision(); err != nil {
+				panic(err)
+			}
+			vsched.Drain()
+			w.Net.Serve(urlA, "v1", c.vers[1])
+			w.Lookup(c.probes[0], c.chain(c.probes[0]))
+			w.Net.Serve(urlA, "v2", c.vers[2])
+		}, Ops: []schedOp{refresh, reader(1, 0, 2, 0), reader(2, 0, 1, 4)}},
 		{Name: name("a2-configrefresh-vs-reader"), Setup: setup, Ops: []schedOp{cfgRefresh, reader(1, 1, 2, 1, 2)}},
 		{Name: name("a3-two-refreshes-vs-reader"), Setup: setup, Ops: []schedOp{refresh, cfgRefresh, reader(1, 2, 1, 0)}, ThoroughOnly: true},
 	}
